@@ -131,6 +131,15 @@ VALUES = {"k0": K0(), "k1": K1(), "z": Z(), "1": 1, "s": S(), "boom": Boom()}
 # methods that call_next with a value they do not accept themselves (the fresh-call path of call_next)
 POOL.append({"id": 8, "shape": gen.SHAPES["x"], "types": {"x": "int"}, "prio": 0, "body": "cnv", "env": {"__v": VALUES["k1"]}})
 POOL.append({"id": 9, "shape": gen.SHAPES["x"], "types": {"x": "list"}, "prio": 1, "body": "cnv", "env": {"__v": VALUES["k0"]}})
+# value-dependent types whose BOUND is a user class predicate: the value condition is evaluated on every call by
+# design (not counted), the bound's predicate is a resolution-time question and must not be asked again on warm calls
+N_POOL = len(POOL)
+ANN["DepIsK"] = ovld.Dependent[IsK, lambda v: not isinstance(v, K1)]
+ANN["DepNamedK1"] = ovld.Dependent[Named["K1"], lambda v: True]
+ANN["DepHooked"] = ovld.Dependent[Hooked, lambda v: True]
+POOL.append({"id": 10, "shape": gen.SHAPES["x"], "types": {"x": "DepIsK"}, "prio": 7, "body": "cn"})
+POOL.append({"id": 11, "shape": gen.SHAPES["x"], "types": {"x": "DepNamedK1"}, "prio": 8})
+POOL.append({"id": 12, "shape": gen.SHAPES["x"], "types": {"x": "DepHooked"}, "prio": 0})
 VALUES["[k0,k1]"] = [VALUES["k0"], VALUES["k1"]]
 VALUES["[[k1],1]"] = [[VALUES["k1"]], 1]
 SIGMA_NAMES = ["k0", "k1", "z", "1", "s", "[k0,k1]", "[[k1],1]"]
@@ -237,8 +246,17 @@ def programs(tier):
     sizes = (2, 3) if tier == "quick" else (2, 3, 4)
     depth = 3 if tier == "quick" else 5
     for L in sizes:
-        for combo in itertools.combinations(range(len(POOL)), L):
+        for combo in itertools.combinations(range(N_POOL), L):
             yield combo, depth
+    # the dependent-with-predicate-bound methods: alone, with each other, and with every single other method
+    extra = list(range(N_POOL, len(POOL)))
+    for e in extra:
+        yield (e,), depth
+        for j in range(N_POOL):
+            yield (j, e), depth
+    for a, b in itertools.combinations(extra, 2):
+        yield (a, b), depth
+        yield (4, a, b), depth
 
 
 def sigma_for(combo):
@@ -292,7 +310,7 @@ def main(tier):
         PROP, tier, "model_checking", merged, t0,
         rule="explicit-state BFS over call / register / unregister histories for every 2-3 (thorough 4) subset of a pool of methods "
              "annotated with user class predicates (class_check, parametrized_class_check), a class with __type_order__ / "
-             "__is_supertype__ hooks, an argument class with __is_subtype__, ordinary classes, a recurse walker and call_next "
+             "__is_supertype__ hooks, an argument class with __is_subtype__, value-dependent types whose bound is such a predicate / hooked class, ordinary classes, a recurse walker and call_next "
              "wrappers; every hook and the resolution entry points (typeorder, subclasscheck, sort_types, TypeMap.__missing__, "
              "MultiTypeMap.__missing__/resolve) are counted; invariant on every call that already succeeded since the last "
              "change: all counters unchanged (incl. its nested recurse / call_next lookups)",
